@@ -22,12 +22,20 @@ for d in sorted(glob.glob(os.path.join(root, "*/"))):
         continue
     meta = json.load(open(mp))
     conf = json.load(open(os.path.join(d, "confirmed.json"))) if os.path.exists(os.path.join(d, "confirmed.json")) else None
+    # idempotent: a meta.json that has been finalised before keeps what it had
+    if name.endswith("_revert"):
+        author = "me: reverse of the `fix:` commit of this defect (see DESIGN.md section 6), hand-adapted where later fixes touched the same lines"
+    elif name == "C12_nondet":
+        author = "me (hand-written)"
+    else:
+        author = "fresh sub-agent given only the property record and a scratch worktree of /repo"
+    ported = sorted(glob.glob(os.path.join(d, "patch_on_*.diff")))
     out = {
         "property": meta.get("property"),
-        "breaks": meta.get("summary"),
+        "breaks": meta.get("summary") or meta.get("breaks") or meta.get("agent_summary"),
         "needs": meta.get("needs"),
-        "author": "fresh sub-agent given only the property record and a scratch worktree of /repo",
-        "agent_claims": {k: meta[k] for k in meta if k.startswith(("suite_", "demo_", "real_tables", "error_without"))},
+        "author": author,
+        "agent_claims": {k: meta[k] for k in meta if k.startswith(("suite_", "demo_", "real_tables", "error_without"))} or meta.get("agent_claims", {}),
         "confirmed_by_me": conf,
         "what_i_ran": [
             "tools/confirm_seeded.py %s   (scratch worktree /tmp/confirm_%s: suite with the change, demo with and without)" % (name, name),
@@ -41,6 +49,10 @@ for d in sorted(glob.glob(os.path.join(root, "*/"))):
     for k in ("summary", "commands_run"):
         if k in meta:
             out.setdefault("agent_" + k, meta[k])
+        elif "agent_" + k in meta:
+            out.setdefault("agent_" + k, meta["agent_" + k])
+    if ported:
+        out["ported"] = "patch.diff is the change ported by me onto the current /repo HEAD (later `fix:` commits rewrote lines it touched); %s is the sub-agent's original against the commit in its name. The ported change was re-confirmed (confirmed.json)." % os.path.basename(ported[0])
     json.dump(out, open(mp, "w"), indent=1, ensure_ascii=False)
     rows.append((name, meta.get("property"), matrix.get(name, {})))
 with open(os.path.join(root, "MATRIX.md"), "w") as f:
